@@ -11,6 +11,11 @@ CHECKS = {
          "Every dependency graph on up to 3 (quick) / 4 (thorough) nodes incl. self-loops, in every source order, realised as virtual fields, offsets, conditions, sizes, enum values, imports and a mixed form, is compiled by the real front end; cycle error iff a reference SCC computation finds a cycle, reported groups = SCCs, termination under a CPU watchdog, fields_in_dependency_order is a stable topological permutation.",
          "Trusted: reference SCC/topological code (40 lines), CPython. Bounded: graphs of <=4 nodes; larger cycles are outside the bound.",
          "DESIGN.md section 3, C15"),
+ "C09": ("model_checking",
+         "explicit-state exploration of the product automaton (shipped tables x regenerated tables), all reachable state pairs x all terminals/nonterminals; traces replayed through both real parsers",
+         "The cached tables embossc loads and tables regenerated from module_ir.PRODUCTIONS + error_examples are explored as a product automaton from (0,0) for both start symbols; every reachable pair agrees on every terminal (action kind, production, error code incl. default errors, expected set) and goto, which by induction on parser steps gives identical accept/reject, tree, error position and message on every token sequence. doc/grammar.md productions and token table are compared with the source. Corpus files and their token mutants are replayed through both parsers.",
+         "Trusted: lr1.Parser.parse is driven only by action/goto/default_errors; the regenerated parser is the reference (its own correctness is C08).",
+         "DESIGN.md section 3, C09"),
 }
 NOT_YET = "check not built yet in this round (planned in DESIGN.md section 3); no claim made"
 
